@@ -258,27 +258,36 @@ static void store(Type *ty) {
     println("  mov %%rax, (%%rdi)");
 }
 
+// Set ZF if and only if a given value compares equal to zero.
 static void cmp_zero(Type *ty) {
   switch (ty->kind) {
   case TY_FLOAT:
     println("  xorps %%xmm1, %%xmm1");
     println("  ucomiss %%xmm1, %%xmm0");
-    return;
+    break;
   case TY_DOUBLE:
     println("  xorpd %%xmm1, %%xmm1");
     println("  ucomisd %%xmm1, %%xmm0");
-    return;
+    break;
   case TY_LDOUBLE:
     println("  fldz");
     println("  fucomip");
     println("  fstp %%st(0)");
+    break;
+  default:
+    if (is_integer(ty) && ty->size <= 4)
+      println("  cmp $0, %%eax");
+    else
+      println("  cmp $0, %%rax");
     return;
   }
 
-  if (is_integer(ty) && ty->size <= 4)
-    println("  cmp $0, %%eax");
-  else
-    println("  cmp $0, %%rax");
+  // An unordered result (NaN) also sets ZF, but a NaN is not equal to
+  // zero: `if (nan)`, `!nan` and `(_Bool)nan` must see a true value.
+  println("  setne %%al");
+  println("  setp %%dl");
+  println("  or %%dl, %%al");
+  println("  test %%al, %%al");
 }
 
 enum { I8, I16, I32, I64, U8, U16, U32, U64, F32, F64, F80 };
